@@ -9,6 +9,9 @@ Inductive query :=
 (* ports are observed as (node index, offset) *)
 Inductive case :=
 | CIndex (idx : Z) (n : option Z) (q : query) (obs : res (list (Z * Z)))
+(* a handle returned by a builder for the operation described by s (the harness builds the real operation
+   from the same description); its count is NOT read from the implementation *)
+| CBuilder (idx : Z) (s : opshape) (q : query) (obs : res (list (Z * Z)))
 | CPortEq (a b : port) (eq_obs hash_eq_obs : bool).
 
 Definition err_eqb (a b : err) : bool :=
@@ -31,6 +34,7 @@ Definition model_query (n : option Z) (q : query) : res (list Z) :=
 Definition corr (c : case) : bool :=
   match c with
   | CIndex idx n q obs => obs_eqb obs (tag idx (model_query n q))
+  | CBuilder idx s q obs => obs_eqb obs (tag idx (model_query (builder_count s) q))
   | CPortEq a b e h => Bool.eqb e (port_eqb a b)
   end.
 
@@ -54,6 +58,13 @@ Definition mon (c : case) : bool :=
   match c with
   | CIndex idx n q obs =>
       match spec_query n q with Some r => obs_eqb obs (tag idx r) | None => true end
+  | CBuilder idx s q obs =>
+      (* the handle must behave as one with exactly the operation's number of value outputs *)
+      shape_wf s &&
+      match value_outputs s with
+      | Some n => match spec_query (Some n) q with Some r => obs_eqb obs (tag idx r) | None => true end
+      | None => false
+      end
   | CPortEq a b e h =>
       let '(i, o, d) := a in let '(j, p, f) := b in
       Bool.eqb e (Z.eqb i j && Z.eqb o p && Bool.eqb d f) && (negb e || h)
